@@ -28,6 +28,13 @@ LAST_LINE_CASES = [
     '<!-- c\n-->', '<div>\n\n</div>', '-', '- a\n-', '1.', '> quote\n>', '>', 'para\n   ', 'para\n\t', '    code\n    ', '\tcode', '#', '## h ##',
     '***', '- a\n\n  b', '* a\n  * b\n    * c', '`code', '*em', '[link](/u', '![i](/i', '<http://a.b', '&amp', '\\', '$x$', '[[w|l]]', '~~s~~',
 ]
+READING_SIDE_CASES = [
+    '#!/usr/bin/env markdown\n# title', '---\ntitle: x\ntags: [a]\n---\n\nbody', '+++\nt = 1\n+++\nbody', '---\n\nnot front matter',
+    'e\u0301 vs \u00e9 and A\u030a', '\ufb01 ligature \u2126 ohm \u00b5 micro', 'mid\ufeffdle bom\n\ufeffsecond line bom', 'nul\x00inside\n\x00',
+    'a\tb\tc', '-\titem\n\tcont', '>\tquote', '```\n\tcode\n \tx\n```', '1.\tone', 'col\t| b\n--|--\n\t1 | 2', 'a\n\n\n\nb\n\n\n', '  \n\n   \nx',
+    'trailing \nspaces  \nhere   \n    code   \n', 'x' * 20000, ('word ' * 3000).strip(), 'a' + ' ' * 5000 + 'b', '\u00a0\u2003\u3000 spaces', '\x7f\x1f\x01 controls',
+    'line\\\ncontinued', '<!-- c -->\ntext', '%YAML 1.2\n---\na: b', 'Title: x\nAuthor: y\n\nbody',
+]
 FIRST_LINE_CASES = ['\ufeff# bom heading', '\x00nul', '   indented three', '    indented four', '\ttab first', '---', '===', '>', '-', '[a]: /u', '```',
                     '<!--', '|a|b|', '\\', ' ', '\u00a0nbsp', '\u200bzwsp', '\U0001F600 astral', 'x' * 300]
 
